@@ -14,7 +14,10 @@ live on a Redis server (then the key TTL runs on the Redis clock).
   source node, and a validity window of the registering table's ttl — from every node;
 * a lookup of an id that was never registered, was removed, or whose waiting period has lapsed must
   not resolve (`notFound`/`expired`/`errParam`);
-* node addresses: the last registered address while its TTL runs, otherwise `notFound`.
+* node addresses: the last registered address while its TTL runs, otherwise `notFound`;
+* a target connection that arrives on any node for a live id is **forwarded to the address its source
+  node has registered last** (not to any address that node had earlier), to nothing when the source
+  node has no live, non-empty address, and is not forwarded at all when the id does not resolve.
 -/
 namespace Tunnox.C09
 
@@ -93,6 +96,17 @@ def check (cfg : Cfg) (g : Ghost) : Ev → Res → Bool
       if liveA cfg.backend g a then (if a.addr != "" then res == .addr a.addr else res == .errData)
       else res == .notFound
     | none => res == .notFound
+  | .fwd _ tid, res =>
+    match g.tunnels tid with
+    | some t =>
+      if liveT cfg.backend g t then
+        (match g.addrs t.data.sourceNodeID with
+         | some a =>
+           if liveA cfg.backend g a && a.addr != "" then res == .forwarded t.data.sourceNodeID a.addr
+           else res == .errNoAddr
+         | none => res == .errNoAddr)
+      else notResolved res
+    | none => notResolved res
 
 def gstep (cfg : Cfg) (g : Ghost) : Ev → Ghost
   | .reg n r => if r.tunnelID == "" then g else setT g r.tunnelID (some ⟨r, tableTTL cfg n, g.wall, g.rclk⟩)
@@ -114,6 +128,7 @@ def gstep (cfg : Cfg) (g : Ghost) : Ev → Ghost
   | .advStore d => { g with rclk := g.rclk + d }
   | .regAddr _ nid a => { g with addrs := fun k => if k = nid then some ⟨a, g.wall, g.rclk⟩ else g.addrs k }
   | .getAddr _ _ => g
+  | .fwd _ _ => g
 
 def holdsFrom (cfg : Cfg) (g : Ghost) : List Ev → List Res → Bool
   | [], [] => true
@@ -146,6 +161,7 @@ def wfEv (b : Backend) : Ev → Bool
   | .endB n _ => wfNode b n
   | .regAddr n _ _ => wfNode b n
   | .getAddr n _ => wfNode b n
+  | .fwd n _ => wfNode b n
   | _ => true
 
 def wf (cfg : Cfg) (evs : List Ev) : Bool := evs.all (wfEv cfg.backend)
